@@ -150,11 +150,13 @@ impl<T: Send> RendezvousSyncSender<T> {
 
   /// Converts this handle into an asynchronous [`RendezvousAsyncSender`]. Zero-cost.
   pub fn to_async(self) -> RendezvousAsyncSender<T> {
+    // a closed handle stays closed across the conversion
+    let closed = self.closed.load(Ordering::Relaxed);
     let shared = unsafe { std::ptr::read(&self.shared) };
     mem::forget(self);
     RendezvousAsyncSender {
       shared,
-      closed: AtomicBool::new(false),
+      closed: AtomicBool::new(closed),
     }
   }
 }
@@ -245,11 +247,13 @@ impl<T: Send> RendezvousSyncReceiver<T> {
 
   /// Converts this handle into an asynchronous [`RendezvousAsyncReceiver`]. Zero-cost.
   pub fn to_async(self) -> RendezvousAsyncReceiver<T> {
+    // a closed handle stays closed across the conversion
+    let closed = self.closed.load(Ordering::Relaxed);
     let shared = unsafe { std::ptr::read(&self.shared) };
     mem::forget(self);
     RendezvousAsyncReceiver {
       shared,
-      closed: AtomicBool::new(false),
+      closed: AtomicBool::new(closed),
     }
   }
 }
@@ -318,11 +322,13 @@ impl<T: Send> RendezvousAsyncSender<T> {
 
   /// Converts this handle into a synchronous [`RendezvousSyncSender`]. Zero-cost.
   pub fn to_sync(self) -> RendezvousSyncSender<T> {
+    // a closed handle stays closed across the conversion
+    let closed = self.closed.load(Ordering::Relaxed);
     let shared = unsafe { std::ptr::read(&self.shared) };
     mem::forget(self);
     RendezvousSyncSender {
       shared,
-      closed: AtomicBool::new(false),
+      closed: AtomicBool::new(closed),
     }
   }
 }
@@ -402,11 +408,13 @@ impl<T: Send> RendezvousAsyncReceiver<T> {
 
   /// Converts this handle into a synchronous [`RendezvousSyncReceiver`]. Zero-cost.
   pub fn to_sync(self) -> RendezvousSyncReceiver<T> {
+    // a closed handle stays closed across the conversion
+    let closed = self.closed.load(Ordering::Relaxed);
     let shared = unsafe { std::ptr::read(&self.shared) };
     mem::forget(self);
     RendezvousSyncReceiver {
       shared,
-      closed: AtomicBool::new(false),
+      closed: AtomicBool::new(closed),
     }
   }
 }
